@@ -6,6 +6,7 @@ import (
 	"fmt"
 	"math/rand"
 	"net"
+	"net/http"
 	"os"
 	"path/filepath"
 	"strconv"
@@ -30,8 +31,23 @@ type c18case struct {
 	krbConfOK                     bool
 	via                           string
 	extraAuth                     []string
-	tlsValue                      string // a spelling of the Tls setting other than the recognised "disable"
-	qIssuer                       bool   // Security.QueryTokenIssuer set (never makes a configuration safer)
+	tlsValue                      string   // a spelling of the Tls setting other than the recognised "disable"
+	qIssuer                       bool     // Security.QueryTokenIssuer set (never makes a configuration safer)
+	blankEnv                      []string // settings given in the file and set to the empty string in the environment: "qk", "k0".."k4"
+}
+
+var c18BlankVars = map[string]string{
+	"qk": "RDPGW_SECURITY__QUERY_TOKEN_SIGNING_KEY", "k0": "RDPGW_SECURITY__" + upperSnake("PAATokenEncryptionKey"), "k1": "RDPGW_SECURITY__" + upperSnake("PAATokenSigningKey"),
+	"k2": "RDPGW_SECURITY__USER_TOKEN_ENCRYPTION_KEY", "k3": "RDPGW_SERVER__SESSION_KEY", "k4": "RDPGW_SERVER__SESSION_ENCRYPTION_KEY",
+}
+
+func (c c18case) blanked(what string) bool {
+	for _, b := range c.blankEnv {
+		if b == what {
+			return true
+		}
+	}
+	return false
 }
 
 func keyOfLen(n int, seed byte) *string {
@@ -48,6 +64,15 @@ func (c c18case) fields() []string {
 			return "0"
 		}
 		return strconv.Itoa(n)
+	}
+	// the environment wins over the file, also with an empty value
+	if c.blanked("qk") {
+		c.qkLen = 0
+	}
+	for k := range c.keyLens {
+		if c.blanked("k" + strconv.Itoa(k)) {
+			c.keyLens[k] = 0
+		}
 	}
 	local := c.local
 	for _, a := range c.extraAuth {
@@ -125,6 +150,9 @@ var substMsgs = []string{"security.paatokenencryptionkey", "security.paatokensig
 func runC18(env *runEnv, idp *fakeIdP, c c18case, n int) {
 	dir := filepath.Join(env.workdir, fmt.Sprintf("gw%d", n))
 	yaml, ev := c.config(dir, idp).render(c.via)
+	for _, b := range c.blankEnv {
+		ev = append(ev, c18BlankVars[b]+"=")
+	}
 	g, started := startGateway(dir, yaml, ev, !c.tlsDisable)
 	obs := "fatal"
 	if started {
@@ -144,6 +172,12 @@ func runC18(env *runEnv, idp *fakeIdP, c c18case, n int) {
 			obs = "started-without-tls"
 		} else {
 			tc.Close()
+		}
+	}
+	if obs == "started" {
+		// what the instance serves is what the configuration enabled, mechanism by mechanism
+		if diff := c18Serving(g, c); diff != "" {
+			obs = "started-serving:" + diff
 		}
 	}
 	if obs == "started" {
@@ -278,6 +312,19 @@ func streamC18(env *runEnv) {
 			c.via = pick(r, []string{"file", "env"})
 		})
 	}
+	// a setting given by the file and blanked by the environment is empty
+	add(func(c *c18case) { c.hostsel = "signed"; c.qkLen = 32; c.blankEnv = []string{"qk"} })
+	add(func(c *c18case) { c.hostsel = "signed"; c.qkLen = 32 })
+	add(func(c *c18case) { c.keyLens = [5]int{32, 32, 32, 32, 32}; c.blankEnv = []string{"k3", "k4"} })
+	add(func(c *c18case) { c.keyLens = [5]int{32, 32, 32, 32, 32}; c.blankEnv = []string{"k0", "k1"} })
+	add(func(c *c18case) {
+		c.keyLens = [5]int{32, 32, 32, 32, 32}
+		c.userTok = true
+		c.blankEnv = []string{"k2"}
+	})
+	// no mechanism at all: nothing is enabled in its place
+	add(func(c *c18case) { c.openid = false; c.tokenAuth = false })
+	add(func(c *c18case) { c.openid = false; c.tokenAuth = true; c.via = "env" })
 	add(func(c *c18case) { c.idpOK = false })
 	add(func(c *c18case) {
 		c.openid = false
@@ -379,4 +426,53 @@ func streamC18(env *runEnv) {
 		env.count("c18.keyshare")
 		env.emit("keyshare", strconv.Itoa(kl), obs)
 	}
+}
+
+// c18Serving probes a started instance: the OpenID routes exist iff openid is
+// configured, and the gateway endpoint challenges with exactly the configured
+// header-based mechanisms. Returns "" when they agree.
+func c18Serving(g *gwInstance, c c18case) string {
+	b := newBrowser()
+	get := func(path string) (int, []string) {
+		req, _ := http.NewRequest("GET", g.base()+path, nil)
+		resp, err := b.c.Do(req)
+		if err != nil {
+			return -1, nil
+		}
+		defer resp.Body.Close()
+		return resp.StatusCode, resp.Header.Values("Www-Authenticate")
+	}
+	local := c.local
+	for _, a := range c.extraAuth {
+		if a == "basic" {
+			local = true
+		}
+	}
+	var diff []string
+	st, _ := get("/connect")
+	if st < 0 {
+		return "" // not reachable: nothing to say (TLS probe reports that)
+	}
+	if (st != 404) != c.openid {
+		diff = append(diff, fmt.Sprintf("openid-routes=%v-configured=%v", st != 404, c.openid))
+	}
+	_, ch := get("/remoteDesktopGateway/")
+	has := func(p string) bool {
+		for _, h := range ch {
+			if strings.HasPrefix(h, p) {
+				return true
+			}
+		}
+		return false
+	}
+	if has("Basic") != local {
+		diff = append(diff, fmt.Sprintf("basic-challenge=%v-configured=%v", has("Basic"), local))
+	}
+	if has("NTLM") != c.ntlm {
+		diff = append(diff, fmt.Sprintf("ntlm-challenge=%v-configured=%v", has("NTLM"), c.ntlm))
+	}
+	if has("Negotiate") != (c.ntlm || c.kerberos) {
+		diff = append(diff, fmt.Sprintf("negotiate-challenge=%v-configured=%v", has("Negotiate"), c.ntlm || c.kerberos))
+	}
+	return strings.Join(diff, ",")
 }
